@@ -51,7 +51,7 @@ func d1ReducedRequest(body J, kept []string, omitted []string) J {
 	out["criteria"] = crit
 	for _, a := range out["knownAlternatives"].([]interface{}) {
 		vals := a.(map[string]interface{})["criteria"].(map[string]interface{})
-		for k := range vals {
+		for _, k := range sortedJKeys(vals) {
 			if gone[k] {
 				delete(vals, k)
 			}
